@@ -337,21 +337,142 @@ fn run_case(seed: u64, idx: u64) -> CaseOut {
     co
 }
 
+// ---- reset race lane ---------------------------------------------------------------------------------
+// reset_eta / reset / reset_elapsed take effect at the instant they get hold of the bar, not at the instant
+// they were called: progress recorded by another thread while the resetting thread waits for the bar's lock
+// is "before the reset". The delay hook parks the resetting thread in front of its lock request while a
+// worker advances the (virtual) clock and the bar; afterwards steady progress H2 must be reported exactly
+// as a fresh bar fed H2 alone reports it.
+
+fn reset_race_case(seed: u64, idx: u64) -> CaseOut {
+    use indicatif::verif_hooks as vh;
+    use std::sync::atomic::AtomicBool;
+    use std::sync::mpsc;
+    let mut rng = Rng::derive(seed, 909, idx);
+    let replay = format!("r{seed}:{idx}");
+    let which = rng.below(3);
+    let name = ["reset_eta", "reset", "reset_elapsed"][which as usize];
+    let clock = Arc::new(AtomicU64::new(7_000_000_000));
+    let armed = Arc::new(AtomicBool::new(false));
+    let done = Arc::new(AtomicBool::new(false));
+    let (tx, rx) = mpsc::channel::<()>();
+    let tx = std::sync::Mutex::new(Some(tx));
+    let (a2, d2) = (armed.clone(), done.clone());
+    let session = vh::Session::new(
+        Some(clock.clone()),
+        false,
+        Some(Box::new(move |p: &vh::DelayPoint| {
+            if p.thread != 0 || !matches!(p.kind, vh::DelayKind::BeforeRequest) || !a2.swap(false, Ordering::SeqCst) {
+                return;
+            }
+            if let Some(tx) = tx.lock().unwrap().take() {
+                let _ = tx.send(());
+                let t0 = std::time::Instant::now();
+                while !d2.load(Ordering::SeqCst) && t0.elapsed().as_millis() < 2_000 {
+                    std::thread::yield_now();
+                }
+            }
+        })),
+    );
+    vh::install(Some(session.clone()));
+    let pb = ProgressBar::with_draw_target(Some(1 << 62), ProgressDrawTarget::hidden());
+    let d = Drv { clock: clock.clone(), pb: pb.clone() };
+    let (n1, n2, n3) = (rng.range(1, 10) as usize, rng.range(1, 6) as usize, rng.range(2, 20) as usize);
+    let h1 = gen_segments(&mut rng, n1);
+    let during = gen_segments(&mut rng, n2);
+    let h2 = gen_segments(&mut rng, n3);
+    let mut co = CaseOut::held(fnv1a(format!("race{which}{idx}").as_bytes()), true);
+    let w = J::obj().with("kind", "reset-race").with("call", name).with("updates_by_the_other_thread_during_the_call", during.len()).with("h2_segments", h2.len());
+    let feats = vec![name.to_string(), "reset-race".to_string()];
+    let p1 = feed(&d, &h1, 0);
+    // the worker shares the session (virtual clock) and moves the bar while the reset waits for the lock
+    let (wpb, wclock, wsess, wdone) = (pb.clone(), clock.clone(), session.clone(), done.clone());
+    let segs: Vec<(u64, u64)> = during.iter().map(|s| (s.gap_ms, s.steps)).collect();
+    let worker = std::thread::spawn(move || {
+        vh::install(Some(wsess));
+        if rx.recv().is_ok() {
+            let mut pos = p1;
+            for (gap, steps) in segs {
+                wclock.fetch_add(gap * MS, Ordering::SeqCst);
+                pos = pos.saturating_add(steps);
+                wpb.set_position(pos);
+                wpb.tick();
+            }
+            wdone.store(true, Ordering::SeqCst);
+        }
+        vh::install(None);
+    });
+    d.advance(gap_ms(&mut rng) * MS);
+    armed.store(true, Ordering::SeqCst);
+    match which {
+        0 => pb.reset_eta(),
+        1 => pb.reset(),
+        _ => pb.reset_elapsed(),
+    }
+    armed.store(false, Ordering::SeqCst);
+    let injected = done.load(Ordering::SeqCst);
+    // release a worker that was never signalled, then wait for it
+    drop(session);
+    vh::install(None);
+    let _ = worker.join();
+    install_session(&clock);
+    let res: Result<(), Verdict> = (|| {
+        if !injected {
+            co.nontrivial = false;
+            return Ok(());
+        }
+        let reset_at = clock.load(Ordering::SeqCst);
+        let base = pb.position();
+        feed(&d, &h2, base);
+        d.advance(rng.range(0, 5_000) * MS);
+        let got = finite_nonneg(&d, "after a reset that raced with progress", &feats, &w, &replay)?;
+        let end = clock.load(Ordering::SeqCst);
+        // twin: a fresh bar created at the instant the reset took effect, fed H2 alone
+        let tclock = Arc::new(AtomicU64::new(reset_at));
+        install_session(&tclock);
+        let fresh = ProgressBar::with_draw_target(Some(1 << 62), ProgressDrawTarget::hidden());
+        let twin = Drv { clock: tclock.clone(), pb: fresh };
+        feed(&twin, &h2, 0);
+        tclock.store(end, Ordering::SeqCst);
+        let want = twin.pb.per_sec();
+        if rel(got, want) > 1e-9 {
+            return Err(viol(
+                "history-before-reset-leaks",
+                feats.clone(),
+                format!("{name}() was called, another thread recorded {} more updates while it waited for the bar, then H2 followed: per_sec() = {got}, a fresh bar fed H2 alone reports {want}", during.len()),
+                w.clone(),
+                replay.clone(),
+            ));
+        }
+        Ok(())
+    })();
+    if let Err(v) = res {
+        co.verdict = v;
+    }
+    indicatif::verif_hooks::install(None);
+    co.count("reset_races_injected", injected as u64);
+    co
+}
+
 pub fn run(cfg: &RunCfg) -> PropResult {
     let report = if let Some(case) = &cfg.case {
-        let mut it = case.split(':');
+        let race = case.starts_with('r');
+        let mut it = case.trim_start_matches('r').split(':');
         let seed: u64 = it.next().and_then(|s| s.parse().ok()).unwrap_or(cfg.seed);
         let idx: u64 = it.next().and_then(|s| s.parse().ok()).unwrap_or(0);
         let mut r = crate::report::Report::default();
-        r.add(idx, run_case(seed, idx));
+        r.add(idx, if race { reset_race_case(seed, idx) } else { run_case(seed, idx) });
         r
     } else {
         let n = if cfg.thorough { 40_000_000 } else { 1_000_000 };
-        run_parallel(n, workers(), |i| run_case(cfg.seed, i))
+        let mut r = run_parallel(n, workers(), |i| run_case(cfg.seed, i));
+        let nr = if cfg.thorough { 100_000 } else { 3_000 };
+        r.merge(crate::report::run_parallel_tagged('r', nr, workers(), |i| reset_race_case(cfg.seed, i)));
+        r
     };
     PropResult {
         report,
-        rule: "four law families in rotation: (steady) 1-400 updates at an exactly constant rate of 1..9e8 steps/ms with log-uniform / tiny / fixed gaps between 1 ms and 10 days; (bounds+stall) 1-60 segments at rates spread over 12 orders of magnitude, then a stall queried at 9 instants up to 1 h; (forget) H1; reset_eta|reset|reset_elapsed|rewind; H2 compared with a fresh bar fed H2 alone; (corners) no progress, zero/unknown length, finished bars; every getter read on a frozen virtual instant; all evaluations are distinct (own PRNG stream) and non-trivial".into(),
+        rule: "four law families in rotation: (steady) 1-400 updates at an exactly constant rate of 1..9e8 steps/ms with log-uniform / tiny / fixed gaps between 1 ms and 10 days; (bounds+stall) 1-60 segments at rates spread over 12 orders of magnitude, then a stall queried at 9 instants up to 1 h; (forget) H1; reset_eta|reset|reset_elapsed|rewind; H2 compared with a fresh bar fed H2 alone; (reset race) reset_eta/reset/reset_elapsed parked by the delay hook in front of the bar's lock while another thread advances the clock and the bar, then H2 compared with a fresh bar; (corners) no progress, zero/unknown length, finished bars; every getter read on a frozen virtual instant; all evaluations are distinct (own PRNG stream) and non-trivial".into(),
         exhaustive: false,
     }
 }
